@@ -43,7 +43,7 @@ def _params(tier):
 VT = _client._VERIFICATION_TRAILER
 
 
-@harness(P, params=_params, bounds="stub lengths 0..48,63..65,127..129,255..257,300 (quick) / 0..320,1023..1025,4095,4096 (thorough) with symbolic stub content, verification "
+@harness(P, per_job=True, params=_params, bounds="stub lengths 0..48,63..65,127..129,255..257,300 (quick) / 0..320,1023..1025,4095,4096 (thorough) with symbolic stub content, verification "
          "trailer on/off, signature sizes {16,28,60,76} (+{0,255} thorough), header signing on/off, context id and opnum symbolic",
          outside="stub lengths not listed (symbolic-length harness framing_symlen covers the arithmetic for every length)",
          must_reach=("frag_len/auth_len", "vt at next 4-byte boundary", "trailer 16-aligned, pad_length = padding added", "exactly header|stub+pad|trailer handed to wrap",
@@ -79,7 +79,7 @@ def framing(c, L, vt, sig, sign):
     return n
 
 
-@harness(P, params=lambda tier: [dict(L=L, vt=v) for L in ([0, 1, 5, 16, 33] if tier == "quick" else range(0, 40)) for v in (False, True)],
+@harness(P, per_job=True, params=lambda tier: [dict(L=L, vt=v) for L in ([0, 1, 5, 16, 33] if tier == "quick" else range(0, 40)) for v in (False, True)],
          bounds="no security context: the stub (+ 4-byte aligned verification trailer) goes out unpadded, auth_len = 0, no trailer", must_reach=("unauthenticated framing",))
 def framing_noauth(c, L, vt):
     client = rc.RpcClient(None)
@@ -103,7 +103,7 @@ def _reply_params(tier):
     return out
 
 
-@harness(P, params=_reply_params, raises=(ValueError,), bounds="reply side: decrypted stub of length 16..47 (quick) / 16..63 (thorough) whose last `pad` bytes (0..15) are the declared auth padding: "
+@harness(P, per_job=True, params=_reply_params, raises=(ValueError,), bounds="reply side: decrypted stub of length 16..47 (quick) / 16..63 (thorough) whose last `pad` bytes (0..15) are the declared auth padding: "
          "GetKey.unpack_response must see exactly the stub minus pad bytes (observed through the HRESULT and length fields it reads)", must_reach=("exactly pad_length bytes stripped",))
 def reply_padding(c, L, pad):
     seen = {}
